@@ -92,6 +92,19 @@ def isRenewSecret (h : Bytes → Bytes) (s : Schema) (stored : Lease) (candidate
   | .v1 => stored.renew == candidate
   | .v2 => stored.renew == h candidate
 
+/-- `LeaseInfo.is_cancel_secret` (v1) / `HashedLeaseInfo.is_cancel_secret` (v2) on a stored lease.  The lease
+    crawler passes the `_HashedCancelSecret` it read off the lease itself, which compares the stored hash
+    directly — the same verdict as hashing the cleartext secret. -/
+def isCancelSecret (h : Bytes → Bytes) (s : Schema) (stored : Lease) (candidate : Bytes) : Bool :=
+  match s with
+  | .v1 => stored.cancel == candidate
+  | .v2 => stored.cancel == h candidate
+
+/-- the `blank_lease` of `MutableShareFile.cancel_lease` (a cleartext `LeaseInfo`: the v2 serializer
+    hashes its all-zero secrets like any others) -/
+def blankLease : Lease :=
+  { owner := 0, expire := 0, renew := zeros 32, cancel := zeros 32, nodeid := zeros 20 }
+
 /-! ### immutable container: lease functions (storage/immutable.py ShareFile) -/
 namespace ImmL
 
@@ -157,6 +170,29 @@ def addOrRenew (h : Bytes → Bytes) (f : File) (avail : Nat) (li : Lease) : Fil
   | (_, some .indexError) =>
       if 72 > avail then (f, some .noSpace) else (addLease h f li, none)
   | (f', some e) => (f', some e)
+
+/-- the loop `for i, lease in enumerate(leases): self._write_lease_record(f, i, lease)` of `cancel_lease` -/
+def rewriteLeases (f : File) (lo : Nat) : List Lease → Nat → File
+  | [], _ => f
+  | l :: rest, i => rewriteLeases (writeLeaseRecord f lo i l) lo rest (i + 1)
+
+/-- `ShareFile.cancel_lease(cancel_secret)`: the remaining leases are re-packed in order, the count
+    rewritten and the file truncated; `none` = the file was unlinked (no lease left).
+    Returns (file, freed space, error). -/
+def cancelLease (h : Bytes → Bytes) (f : File) (secret : Bytes) : Option File × Nat × Option Err :=
+  match schemaOf f with
+  | none => (some f, 0, some .unknownVersion)
+  | some s =>
+    let leases := getLeases f
+    let keep := leases.filter fun l => !isCancelSecret h s l secret
+    let removed := leases.length - keep.length
+    if removed = 0 then (some f, 0, some .indexError) else
+    let lo := leaseOffset f
+    let f1 := rewriteLeases f lo keep 0
+    let f2 := pwrite f1 8 (packU32 keep.length)
+    let f3 := truncate f2 (lo + keep.length * 72)
+    if keep.length = 0 then (none, 72 * removed + f3.length, none)
+    else (some f3, 72 * removed, none)
 
 /-- container invariant: valid version, header present, the lease area fits -/
 def WF (f : File) : Prop :=
